@@ -62,11 +62,40 @@ def calls(rng, table, n):
         if rng.random() < 0.1: yield "@seed %x" % rng.randrange(1, 100)
     yield "@done"
 
+def growth(rng, table):
+    """directed histories: values at limb boundaries whose result needs one more limb than the (pre-shrunk) destination has"""
+    B = 1 << 64
+    sig = {n: s for n, s, r in table}
+    yield "@reset"
+    k = rng.randrange(1, 5); m = rng.randrange(0, 64 * k)
+    specials = [B ** k - 1, -(B ** k - 1), B ** k, -(B ** k), -(B ** k - (1 << m)), B ** k - (1 << m), -(1 << (64 * k - 1)), (1 << (64 * k - 1)), -1, 1 - B ** k]
+    for slot in range(6): yield "@setz %x %s" % (slot, hx(rng.choice(specials)))
+    bits = [m, 64 * k - 1, 64 * k, 64 * k + 1, 0, 63, 64]
+    cands = []
+    for name in ("mpz_setbit", "mpz_clrbit", "mpz_combit"):
+        if name in sig: cands += ["@call %s %x %x" % (sbytes(name), rng.randrange(6), rng.choice(bits)) for _ in range(4)]
+    for name in ("mpz_com", "mpz_neg", "mpz_abs"):
+        if name in sig: cands += ["@call %s %x %x" % (sbytes(name), d, rng.randrange(6)) for d in range(2)]
+    for name in ("mpz_add_ui", "mpz_sub_ui", "mpz_mul_ui", "mpz_addmul_ui", "mpz_submul_ui"):
+        if name in sig: cands += ["@call %s %x %x %x" % (sbytes(name), rng.randrange(6), rng.randrange(6), rng.choice([1, 2, B - 1, 1 << 63])) for _ in range(2)]
+    for name in ("mpz_ui_sub",):
+        if name in sig: cands += ["@call %s %x %x %x" % (sbytes(name), rng.randrange(6), rng.choice([0, 1, B - 1]), rng.randrange(6)) for _ in range(2)]
+    for name in ("mpz_mul_2exp", "mpz_cdiv_q_2exp", "mpz_fdiv_q_2exp", "mpz_cdiv_r_2exp", "mpz_fdiv_r_2exp"):
+        if name in sig: cands += ["@call %s %x %x %x" % (sbytes(name), rng.randrange(6), rng.randrange(6), rng.choice([1, 63, 64, 65, m])) for _ in range(2)]
+    for name in ("mpz_add", "mpz_sub", "mpz_mul", "mpz_and", "mpz_ior", "mpz_xor", "mpz_addmul", "mpz_submul"):
+        if name in sig: cands += ["@call %s %x %x %x" % (sbytes(name), rng.randrange(6), rng.randrange(6), rng.randrange(6)) for _ in range(2)]
+    rng.shuffle(cands)
+    for c in cands[:25]:
+        yield c
+        if rng.random() < 0.3: yield "@setz %x %s" % (rng.randrange(6), hx(rng.choice(specials)))
+    yield "@done"
+
 def gen_ops(rng, tier, ctx=None):
     build = ctx.build if ctx else vlib.REPO
     table, _ = apigen.table(build)
     nl, nc = (300, 400) if tier == "quick" else (3000, 6000)
     for _ in range(nl): yield from lifecycle(rng)
+    for _ in range(nl): yield from growth(rng, table)
     for _ in range(nc): yield from calls(rng, table, rng.randrange(5, 60))
 
 def nontrivial(line):
